@@ -492,7 +492,10 @@ def run_app(sc, schedule=None, seed=None, line_preempt=None):
                             return False
                         ext.dispatch(stop=finished)
                         v = app.has_errored
-                    sched.ev("run_ret", value=bool(v), run=r)
+                    # threads the library started that are still there at the moment run_forever hands control back
+                    # (with an external dispatcher the loop's lifetime is not run_forever's)
+                    alive = [] if ext is not None else [t.name for t in sched.threads if not t.done and t.name.split("#")[0] == "ping"]
+                    sched.ev("run_ret", value=bool(v), run=r, live=alive)
                     if sc.get("send_after_run"):
                         app_send("after-run-%d" % r)
                 except BaseException as e:      # noqa
